@@ -139,6 +139,11 @@ def run_flow(ctx) -> RuleResult:
                 reversed_once = False
                 if isinstance(core, ast.Subscript) and _slice_is_reversal(core.slice):
                     core, reversed_once = core.value, True
+                elif isinstance(core, ast.Call) and not is_S(core) and ctx.dotted(module, core.func) in ("numpy.flip", "numpy.flipud") \
+                        and core.args and (len(core.args) == 1 or (isinstance(core.args[1], ast.Constant) and core.args[1].value in (0, None))) \
+                        and all(kw.arg == "axis" and isinstance(kw.value, ast.Constant) and kw.value.value in (0, None)
+                                for kw in core.keywords):
+                    core, reversed_once = core.args[0], True  # numpy.flip(indices) of a 1-D permutation is indices[::-1]
                 ok = isinstance(core, ast.Call) and not is_S(core) and ctx.dotted(module, core.func) == GLEXSORT
                 if ok:
                     arg0 = core.args[0] if core.args else None
